@@ -325,11 +325,11 @@ def rule_cond(ctx):
     ok = len(ifs) == 1 and norm(ifs[0].test) == 'self.test' and any(isinstance(s, ast.For) for s in ifs[0].body)
     ctx.ob('C11.cond', f'{f.fq}:only-when-true', ok, 'signal resumes the routines only when the condition holds (never before)', f.node, mod)
     w = c.methods['wait']
-    ifs = [s for s in w.node.body if isinstance(s, ast.If) and norm(s.test) == 'not self.test']
+    ifs = [s for s in w.node.body if isinstance(s, ast.If) and norm(s.test) in ('not self.test', 'self.test')]
     ok = False
     if len(ifs) == 1:
-        tb = ifs[0].body
-        fb = ifs[0].orelse
+        # tb: the branch taken when the test is false (the loader writes `if not c: A else: B` as `if c: B else: A`)
+        tb, fb = (ifs[0].body, ifs[0].orelse) if norm(ifs[0].test) == 'not self.test' else (ifs[0].orelse, ifs[0].body)
         ytrue = [s.value.value for s in tb if isinstance(s, ast.Expr) and isinstance(s.value, ast.Yield)]
         yfalse = [s.value.value for s in fb if isinstance(s, ast.Expr) and isinstance(s.value, ast.Yield)]
         park = any(norm(s) == 'self._waiting_threads.append(current_tt.thread_player)' for s in tb)
